@@ -40,6 +40,45 @@ namespace bxdecay0 {
     std::unique_ptr<std::ifstream> fin;
   };
 
+  namespace {
+
+    /// Parse one event record (header line and particle lines) from an input stream
+    void parse_event_record(std::istream & fin, const bool zero_event_time_, const bool debug_, event & evt_)
+    {
+      int evId = -1;
+      double evTime = 0.0;
+      std::string decayGenName;
+      int nbParticles = 0;
+      if (debug_) std::cerr << "[debug] bxdecay0::event_reader::load_next_event: Parsing event header...\n";
+      fin >> evId >> std::ws >> evTime >> std::ws >> decayGenName >> std::ws;
+      if (zero_event_time_) evTime = 0.0;
+      fin >> nbParticles >> std::ws;
+      if (!fin) {
+        throw std::runtime_error("bxdecay0::event_reader::load_next_event: Invalid/corrupted event format!");
+      }
+      evt_.set_time(evTime);
+      evt_.set_generator(decayGenName);
+      for (int iPart = 0; iPart < nbParticles; iPart++) {
+        if (debug_) std::cerr << "[debug] bxdecay0::event_reader::load_next_event: Parsing particle #" << iPart << " ...\n";
+        int partCode = (int) INVALID_PARTICLE;
+        double partTime, px, py, pz;
+        fin >> partCode >> std::ws >> partTime >> std::ws >> px >> std::ws >> py >> std::ws >> pz >> std::ws;
+        if (!fin) {
+          throw std::runtime_error("bxdecay0::event_reader::load_next_event: Invalid/corrupted particle format!");
+        }
+        particle part;
+        part.set_code(static_cast<particle_code>(partCode));
+        part.set_time(partTime);
+        part.set_px(px);
+        part.set_py(py);
+        part.set_pz(pz);
+        evt_.add_particle(part);
+      }
+      return;
+    }
+
+  } // namespace
+
   event_reader::pimpl_type::pimpl_type(event_reader & reader_)
     : reader(reader_)
   {
@@ -198,6 +237,26 @@ namespace bxdecay0 {
       if (is_trace()) std::cerr << "[trace] bxdecay0::event_reader::_check_next_event_: No input file stream!\n";
       return false;
     }
+    // Skip the events before the starting index first, otherwise an event could be
+    // announced although the requested window is empty:
+    while (_pimpl_->fin and _pimpl_->parsed_event_counter < _config_.start_event) {
+      event skipped_event;
+      parse_event_record(*(_pimpl_->fin), _config_.zero_event_time, is_debug(), skipped_event);
+      _pimpl_->last_event_in_file_index++;
+      _pimpl_->parsed_event_counter++;
+      _pimpl_->end_event_file_index = _pimpl_->current_file_index;
+      _pimpl_->end_event_in_file_index = _pimpl_->last_event_in_file_index;
+      *(_pimpl_->fin) >> std::ws;
+      if (_pimpl_->fin->eof()) {
+        _close_current_file_();
+        if (not is_terminated()) {
+          _open_new_file_();
+        }
+      }
+    }
+    if (not _pimpl_->fin) {
+      return false;
+    }
     if (is_debug()) std::cerr << "[debug] bxdecay0::event_reader::_check_next_event_: Reading ws...\n";
     *(_pimpl_->fin) >> std::ws;
     if (_pimpl_->fin->eof()) {
@@ -234,35 +293,7 @@ namespace bxdecay0 {
         _open_new_file_();
       }
       std::ifstream & fin = *(_pimpl_->fin);
-      int evId = -1;
-      double evTime = 0.0;
-      std::string decayGenName;
-      int nbParticles = 0;
-      if (is_debug()) std::cerr << "[debug] bxdecay0::event_reader::load_next_event: Parsing event header...\n";
-      fin >> evId >> std::ws >> evTime >> std::ws >> decayGenName >> std::ws;
-      if (_config_.zero_event_time) evTime = 0.0;
-      fin >> nbParticles >> std::ws;
-      if (!fin) {
-        throw std::runtime_error("bxdecay0::event_reader::load_next_event: Invalid/corrupted event format!");
-      }
-      evt_.set_time(evTime);
-      evt_.set_generator(decayGenName);
-      for (int iPart = 0; iPart < nbParticles; iPart++) {
-        if (is_debug()) std::cerr << "[debug] bxdecay0::event_reader::load_next_event: Parsing particle #" << iPart << " ...\n";
-        int partCode = (int) INVALID_PARTICLE;
-        double partTime, px, py, pz;
-        fin >> partCode >> std::ws >> partTime >> std::ws >> px >> std::ws >> py >> std::ws >> pz >> std::ws;
-        if (!fin) {
-          throw std::runtime_error("bxdecay0::event_reader::load_next_event: Invalid/corrupted particle format!");
-        }
-        particle part;
-        part.set_code(static_cast<particle_code>(partCode));
-        part.set_time(partTime);
-        part.set_px(px);
-        part.set_py(py);
-        part.set_pz(pz);
-        evt_.add_particle(part);
-      }
+      parse_event_record(fin, _config_.zero_event_time, is_debug(), evt_);
       if (is_debug()) std::cerr << "[debug] bxdecay0::event_reader::load_next_event: Updating counters...\n";
       _pimpl_->last_event_in_file_index++;
       _pimpl_->parsed_event_counter++;
